@@ -48,7 +48,7 @@ pub struct SinkFault {
 
 // Which print was in flight when the first failing fd-1 write happened.
 pub fn locate_fault(w2: &W2Prog, r: &RunResult) -> Option<SinkFault> {
-    let fail = r.events.iter().find(|e| e.kind == 'W' && e.fd == 1 && e.ret < 0 && e.errno != 4)?;
+    let fail = r.events.iter().find(|e| e.kind == 'W' && e.fd == 1 && ((e.ret < 0 && e.errno != 4) || e.act == "zero"))?;
     let acked: u64 = r.events.iter().filter(|e| e.kind == 'W' && e.fd == 1 && e.ret > 0 && e.seq < fail.seq).map(|e| e.ret as u64).sum();
     let j = w2.events.iter().position(|ev| ev.end > acked)?;
     Some(SinkFault { j, acked, errno: fail.errno })
@@ -441,7 +441,7 @@ fn check_w1(ctx: &Ctx, worker: usize, case: &Case) -> Outcome {
     let cmp_stdout = case.world.stdout != 3 && case.world.stdout != 9;
     let cmp_stderr = (case.world.stderr != 3 && case.world.stderr != 9) || case.world.merged;
     let mut bad = vec![];
-    if r.events.iter().any(|e| e.kind == 'W' && e.fd == 2 && e.ret < 0 && e.errno != 4) {
+    if r.events.iter().any(|e| e.kind == 'W' && e.fd == 2 && ((e.ret < 0 && e.errno != 4) || e.act == "zero")) {
         // stderr refused (part of) the diagnostic: what can still be asserted is that the
         // failure is a failure (exit 103) and that the output so far is intact
         out.probes.push("w1-stderr-fault".into());
